@@ -91,6 +91,26 @@ def run_case(case):
     except Exception as e:
         inn = _innermost(e)
         # rejected: acceptable for every combination ("computed correctly or rejected")
+        if not defined:
+            # neither operand contains the other: the adjoints have no meaning either and
+            # must be rejected as well, not return an array of the requested shape
+            from vf.lops import conv_out
+            p_ = conv_out(m, n, strides or [1] * D, "valid")
+            yshape = case["batch"] + ([case["co"]] if multi else []) + p_
+            yy = crandn(rng, yshape)
+            for nm_, call in (
+                    ("convolve_data_adjoint",
+                     lambda: sp.convolve_data_adjoint(yy, filt, dshape, **kw)),
+                    ("convolve_filter_adjoint",
+                     lambda: sp.convolve_filter_adjoint(yy, data, fshape, **kw))):
+                try:
+                    out_ = call()
+                except Exception:
+                    continue
+                return violated(sig, "%s accepted a valid-mode shape pair where neither "
+                                "operand contains the other (data %s, filter %s) and returned "
+                                "an array of shape %s" % (nm_, m, n, np.shape(out_)), wit,
+                                mech="mixed-accepted:" + nm_)
         r = held(sig + "|rejected", {"rejected": type(inn).__name__, "defined": defined}, 1,
                  nontrivial=not defined)
         r["tags"] = ["rejected:" + ("undefined-mixed" if not defined else relcls)]
